@@ -22,6 +22,35 @@ static const char* kGeomNames[] = {"Circular", "Shafranov", "Czarny", "Culham"};
 static const char* kCoefNames[] = {"Poisson", "Sonnendrucker", "SonnendruckerGyro", "Zoni", "ZoniGyro", "ZoniShifted",
                                    "ZoniShiftedGyro"};
 
+// A shipped profile multiplied by a constant: alpha > 0, beta >= 0 are preserved, and the discrete operator is linear in
+// (alpha, beta) - profiles in physical units (1e-10 ... 1e8) are legitimate user input (DensityProfileCoefficients is the
+// API's extension point) and must not change any operator-level property.
+class ScaledCoefficients : public DensityProfileCoefficients
+{
+public:
+    ScaledCoefficients(std::unique_ptr<DensityProfileCoefficients> base, double scale)
+        : base_(std::move(base))
+        , scale_(scale)
+    {
+    }
+    double alpha(const double& r) const override
+    {
+        return scale_ * base_->alpha(r);
+    }
+    double beta(const double& r) const override
+    {
+        return scale_ * base_->beta(r);
+    }
+    double getAlphaJump() const override
+    {
+        return base_->getAlphaJump();
+    }
+
+private:
+    std::unique_ptr<DensityProfileCoefficients> base_;
+    double scale_;
+};
+
 struct ProblemSpec {
     std::vector<double> radii, angles;
     int split_mode = 0; // 0 automatic, 1 explicit
@@ -30,6 +59,7 @@ struct ProblemSpec {
     double Rmax = 1.3, gp1 = 0, gp2 = 0; // kappa/delta resp. eps/e
     int coef          = 0; // index into kCoefNames
     double alpha_jump = 0.5;
+    double coef_scale = 1.0; // multiplies alpha and beta
     bool dirbc        = true;
 
     void put(KV& c) const
@@ -44,6 +74,7 @@ struct ProblemSpec {
         c.putD("gp2", gp2);
         c.putI("coef", coef);
         c.putD("alpha_jump", alpha_jump);
+        c.putD("coef_scale", coef_scale);
         c.putI("dirbc", dirbc);
     }
     static ProblemSpec get(const KV& c)
@@ -59,6 +90,7 @@ struct ProblemSpec {
         p.gp2        = c.getD("gp2", 0.0);
         p.coef       = (int)c.getI("coef");
         p.alpha_jump = c.getD("alpha_jump");
+        p.coef_scale = c.getD("coef_scale", 1.0);
         p.dirbc      = c.getI("dirbc") != 0;
         return p;
     }
@@ -84,6 +116,12 @@ struct ProblemSpec {
         }
     }
     std::unique_ptr<DensityProfileCoefficients> makeCoefficients() const
+    {
+        if (coef_scale != 1.0)
+            return std::make_unique<ScaledCoefficients>(makeBaseCoefficients(), coef_scale);
+        return makeBaseCoefficients();
+    }
+    std::unique_ptr<DensityProfileCoefficients> makeBaseCoefficients() const
     {
         switch (coef) {
         case 0:
@@ -122,7 +160,7 @@ struct ProblemSpec {
     std::string sig() const
     {
         return std::to_string(nr()) + "x" + std::to_string(ntheta()) + kGeomNames[geom] + kCoefNames[coef] +
-               (dirbc ? "D" : "O");
+               (dirbc ? "D" : "O") + (coef_scale == 1.0 ? "" : (coef_scale < 1 ? "s" : "S"));
     }
 };
 
@@ -278,6 +316,17 @@ inline ProblemSpec genProblem(const GridOpts& go)
     }
     p.coef       = rint(0, 6);
     p.alpha_jump = p.Rmax * runi(0.3, 0.95);
+    // profile in other units: 1 (70%), 1e-8..1e-3 (15%), 1e3..1e8 (15%)
+    switch (rweighted({14, 3, 3})) {
+    case 1:
+        p.coef_scale = std::pow(10.0, runi(-8, -3)); // (the line solvers assert |pivot| > 2.2e-13 absolutely)
+        break;
+    case 2:
+        p.coef_scale = std::pow(10.0, runi(3, 8));
+        break;
+    default:
+        p.coef_scale = 1.0;
+    }
     p.dirbc      = rbool();
     // split
     if (go.allow_explicit_split && rint(0, 1) == 0) {
